@@ -104,6 +104,9 @@ def state_cases(payload):
       o['diff'] = safe(lambda: fl(statelib.diff(ss[0], ss[1])))
       o['sub'] = safe(lambda: fl(ss[0] - ss[1]))
       o['or'] = safe(lambda: fl(ss[0] | ss[1]))
+    if c.get('diff_pair'):
+      da, db = mk(c['diff_pair'][0]), mk(c['diff_pair'][1])
+      o['diff_pair'] = {'diff': safe(lambda: fl(statelib.diff(da, db))), 'sub': safe(lambda: fl(da - db))}
     # pure dict
     def pure():
       pd = nnx.to_pure_dict(ss[0])
